@@ -20,9 +20,9 @@ d = d[:a] + t + d[b:]
 # 9.6 table
 hdr = '| seed | property | first run | caught by |\n|---|---|---|---|\n'
 a = d.index(hdr) + len(hdr); b = d.index('\nA first round gave one seed per property', a)
-rows = ''.join('| %s%s | %s | %s | %s |\n' % (sid, ' (round %d)' % m['round'] if m.get('round') in (2, 3, 4, 5, 6, 7) else '', m['property'], m.get('first_result', '').replace('|', '/')[:240], m.get('caught_by', '').replace('|', '/')[:200]) for sid, m in seeds)
+rows = ''.join('| %s%s | %s | %s | %s |\n' % (sid, ' (round %d)' % m['round'] if m.get('round') in (2, 3, 4, 5, 6, 7, 8) else '', m['property'], m.get('first_result', '').replace('|', '/')[:240], m.get('caught_by', '').replace('|', '/')[:200]) for sid, m in seeds)
 d = d[:a] + rows + d[b:]
-n1 = sum(1 for _, m in seeds if m.get('round') not in (2, 3, 4, 5, 6, 7)); n2 = sum(1 for _, m in seeds if m.get('round') == 2); n3 = sum(1 for _, m in seeds if m.get('round') == 3)
+n1 = sum(1 for _, m in seeds if m.get('round') not in (2, 3, 4, 5, 6, 7, 8)); n2 = sum(1 for _, m in seeds if m.get('round') == 2); n3 = sum(1 for _, m in seeds if m.get('round') == 3)
 miss3 = sorted({m['property'] for _, m in seeds if m.get('round') == 3 and m.get('first_result', '').startswith('MISSED')})
 miss2 = sorted({m['property'] for _, m in seeds if m.get('round') == 2 and m.get('first_result', '').startswith('MISSED')})
 d = re.sub(r'A second round on .*? was missed .*?\.', 'A second round on %d properties (sub-agents told to avoid the first idea) was missed %d times (%s).' % (n2, len(miss2), ', '.join(miss2)), d, count=1, flags=re.S)
@@ -47,6 +47,11 @@ miss7 = sorted({m['property'] for _, m in seeds if m.get('round') == 7 and m.get
 if 'A seventh round' not in d:
     d = d.replace(' A second round on ', ' A seventh round on 0 properties brought 0 misses (). A second round on ', 1)
 d = re.sub(r'A seventh round .*? misses \(.*?\)\.', 'A seventh round on %d properties brought %d misses (%s).' % (n7, len(miss7), ', '.join(miss7)), d, count=1, flags=re.S)
+n8 = sum(1 for _, m in seeds if m.get('round') == 8)
+miss8 = sorted({m['property'] for _, m in seeds if m.get('round') == 8 and m.get('first_result', '').startswith('MISSED')})
+if 'An eighth round' not in d:
+    d = d.replace(' A second round on ', ' An eighth round on 0 properties brought 0 misses (). A second round on ', 1)
+d = re.sub(r'An eighth round .*? misses \(.*?\)\.', 'An eighth round on %d properties brought %d misses (%s).' % (n8, len(miss8), ', '.join(miss8)), d, count=1, flags=re.S)
 d = re.sub(r'All \S+ are caught now;', 'All %d are caught now;' % len(seeds), d)
 open(p, 'w').write(d)
 print(len(fixes), 'fix commits;', sum(1 for e in known if e['status'] == 'known'), 'known;', len(seeds), 'seeds; round-2 misses:', miss2)
